@@ -45,6 +45,10 @@ def duplex_scenarios(reps):
                     out.append(dict(base, duplex={"reader_limit_ms": 300, "close_after_ms": 20}, script=[], src="duplex-closed-under-reader"))
                 # the writer is served at once and leaves first
                 out.append(dict(base, duplex={"reader_limit_ms": 60}, script=[{"k": "xfer", "n": 3}], src="duplex-writer-leaves-first"))
+                # reader and writer hold a descriptor each of the one socket (dup - what TcpStream::try_clone hands out)
+                out.append(dict(base, duplex={"reader_limit_ms": 200, "dup": True}, script=[{"k": "wouldblock", "n": 0}, {"k": "xfer", "n": 3}], src="duplex-dup-wait"))
+                out.append(dict(base, duplex={"reader_limit_ms": 25, "dup": True}, script=[{"k": "wouldblock", "n": 0}] * 5 + [{"k": "xfer", "n": 3}],
+                                src="duplex-dup-reader-leaves-first"))
     return out
 
 
@@ -141,7 +145,8 @@ def run(pid, tier):
     bindir = build_harness()
     conn_scs = conn_stage(v, wd, tier, cov, bindir) if pid == "C18" else []
     if pid == "C18":
-        mc_runs("NioShared", [("MC_NioShared.cfg", None), ("MC_NioShared_mode_from_flag.cfg", "any"), ("MC_NioShared_restore_asserts.cfg", "NoAbort")], tier, cov)
+        mc_runs("NioShared", [("MC_NioShared.cfg", None), ("MC_NioShared_mode_from_flag.cfg", "any"), ("MC_NioShared_restore_asserts.cfg", "NoAbort"),
+                               ("MC_NioShared_keyed_by_number.cfg", "any")], tier, cov)
     insts = [("MC_Nio.cfg", None)] + [("MC_Nio_%s.cfg" % d, "any") for d in DEVS]
     mc_runs("MC_Nio", insts, tier, cov)
     thorough = tier == "thorough"
